@@ -1165,6 +1165,7 @@ func runC07(r *Run, rng *Rng, replay string) {
 			}
 		}
 	}
+	c07ReadStable(r, rng)
 	c07TableCheck(r)
 	for _, w := range c07Witnesses {
 		runC07Scenario(r, w, "valid")
@@ -1188,6 +1189,55 @@ func runC07(r *Run, rng *Rng, replay string) {
 			runC07Scenario(r, c07GenEmu(rng, rng.Range(5, length), false), "wild")
 		} else {
 			runC07Scenario(r, c07GenTim(rng, rng.Range(5, length), false), "wild")
+		}
+	}
+}
+
+// c07ReadStable: a value read from a register is a VALUE — the bytes returned for operand X must
+// not change when another operand is read afterwards (no aliasing of internal scratch storage).
+func c07ReadStable(r *Run, rng *Rng) {
+	wf := emu.NewWavefront(kernels.NewWavefront())
+	c07Fill(wf.SRegFile, 7, 0)
+	c07Fill(wf.VRegFile, 7, 1)
+	wf.SetVCC(0x1111111122222222)
+	wf.SetEXEC(0x3333333344444444)
+	n := 400
+	if r.Tier == "thorough" {
+		n = 20000
+	}
+	pick := func() (*insts.Operand, int, string) {
+		rc := rng.Pick(1, 1, 2, 4)
+		switch rng.Intn(4) {
+		case 0:
+			i := rng.Intn(100 - rc)
+			return insts.NewSRegOperand(i, i, rc), 0, fmt.Sprintf("s%d x%d", i, rc)
+		case 1:
+			return insts.NewRegOperand(106, insts.VCCLO, rng.Pick(1, 2)), 0, "vcc_lo"
+		case 2:
+			return insts.NewRegOperand(126, insts.EXECLO, rng.Pick(1, 2)), 0, "exec_lo"
+		default:
+			i, l := rng.Intn(250-rc), rng.Intn(64)
+			return insts.NewVRegOperand(256+i, i, rc), l, fmt.Sprintf("v%d x%d lane %d", i, rc, l)
+		}
+	}
+	for k := 0; k < n; k++ {
+		ox, lx, nx := pick()
+		oy, ly, ny := pick()
+		r.Checked("read-stable")
+		var x, keep []byte
+		f := catch(func() {
+			x = wf.ReadOperandBytes(ox, lx, 16)
+			keep = append([]byte{}, x...)
+			_ = wf.ReadOperandBytes(oy, ly, 16)
+			_ = wf.ReadOperand(oy, ly)
+		})
+		if f != "" {
+			continue
+		}
+		if string(x) != string(keep) {
+			r.Failf("C07.emu.read-aliases-later-read", fmt.Sprintf("read %s then read %s", nx, ny),
+				"bytes returned for the first operand changed from %x to %x after the second read", keep, x)
+			return
 		}
 	}
 }
